@@ -3,7 +3,7 @@ CONSTANTS
   Sessions = {1}
   MaxOps = 5
   Kinds = {"a", "pad", "hash", "empty"}
-  DEV = {}
+  WithWrite = TRUE
   Emit = TRUE
 SPECIFICATION Spec
 INVARIANTS EmitInv
